@@ -208,6 +208,13 @@ func check(name string, mods map[string]string, f filt, base []gen.Rec) (vs []en
 			mk("filter-entry-points-disagree:"+strings.SplitN(d, ":", 2)[0]+":"+f.Name, d)
 		}
 	}
+	// the filtered compile leaves the parse trees as it found them: the SAME trees compiled once more
+	// without a filter give the unfiltered schema
+	if r2 := gen.CompileTwice(mods, gen.Options{Filter: f.F}); !r2.OK() {
+		mk("unfiltered-compile-after-a-filtered-one-fails:"+f.Name, fmt.Sprint(r2.Stage, ": ", r2.Err, r2.Panic))
+	} else if d2 := render(gen.Dump(r2.MS, gen.DumpOpts{})); d2 != render(base) {
+		mk("filtered-compile-changes-the-parse-trees:"+f.Name, gen.FirstDiff(render(base), d2))
+	}
 	want := prune(base, f.Keep)
 	got := gen.Dump(r.MS, gen.DumpOpts{})
 	total, removed = len(base), len(base)-len(want)
